@@ -164,6 +164,16 @@ fn queries(name: &str, alias: &str) -> Vec<String> {
         q.push(alias.to_string());
         q.push(alias.to_lowercase());
     }
+    // spellings with the two non-ASCII letters whose upper-case form is an ASCII letter (dotless i, long s): case
+    // variants under Unicode folding, of the name and of the alias, longer in bytes than in characters
+    for base in [name.to_lowercase(), alias.to_lowercase()] {
+        if base.contains('i') {
+            q.push(base.replace('i', "\u{131}"));
+        }
+        if base.contains('s') {
+            q.push(base.replace('s', "\u{17f}"));
+        }
+    }
     // near misses
     // the ASCII string the low bytes of the name's characters spell (a lookup that truncates code units finds it)
     if !name.is_ascii() {
